@@ -140,7 +140,7 @@ def point(rng, cv, pool):
     return rng.choice(pool)
 
 
-NCLASS = 14
+NCLASS = 15
 
 
 def comb_scalar(rng, cv):
@@ -210,6 +210,10 @@ def scalar(rng, n, k=None, cv=None):
         return int("01" * 128, 2) % n
     if k == 9:
         return rng.bits(rng.choice([8, 32, 64, 127, 128, 129]))
+    if k == 14:   # a multiple of the order plus or minus a one-digit value, either sign (reduction first, sign fix-up after; short residues)
+        m_ = rng.choice([1, 2, 3, 5])
+        s_ = rng.choice([1, 3, rng.bits(63) | 1, (1 << 64) - 1])
+        return rng.choice([1, -1]) * (m_ * n + rng.choice([1, -1]) * s_)
     if k == 10:   # GLV boundary: around sqrt(n)
         r = int(n ** 0.5)
         return r * rng.choice([1, 2, 3]) + rng.choice([-1, 0, 1])
